@@ -206,6 +206,44 @@ def frames {α} : File α → List (Nat × Bytes)
   | done _ => []
   | record body k => (body.write.2.1, body.write.1) :: frames (k body.write.2.2)
 
+/-- the file program re-seeded, record by record, with what a read of `bs` returns -/
+def reseed {α} (fr : Frame) : File α → Bytes → File α
+  | .done a, _ => .done a
+  | .record body k, bs =>
+    match fr.count.dec bs with
+    | none => .record body k
+    | some (_, r1) =>
+      match body.read r1 with
+      | none => .record body k
+      | some (_, r2) =>
+        match fr.count.dec r2 with
+        | none => .record body k
+        | some (_, r3) =>
+          match takeExact fr.term.length r3 with
+          | none => .record body k
+          | some (_, r4) => .record (body.reseed r1) (fun y => reseed fr (k y) r4)
+
+/-- every record of `bs` is canonically encoded: canonical count fields, the leading count equal to the
+byte count its fields declare, canonical fields, the frame's terminator -/
+def Canon {α} (fr : Frame) : File α → Bytes → Prop
+  | .done _, _ => True
+  | .record body k, bs =>
+    match fr.count.dec bs with
+    | none => True
+    | some (n, r1) =>
+      match body.read r1 with
+      | none => True
+      | some (b, r2) =>
+        match fr.count.dec r2 with
+        | none => True
+        | some (n2, r3) =>
+          match takeExact fr.term.length r3 with
+          | none => True
+          | some (w, r4) =>
+            fr.count.enc n ++ r1 = bs ∧ n = ((body.reseed r1).write.2.1 : Nat) ∧ body.Canon r1 ∧
+            fr.count.enc n2 ++ r3 = r2 ∧ w = fr.term ∧ Canon fr (k b) r4
+
+
 end File
 
 /-! ## containers derived from the primitives -/
@@ -355,5 +393,31 @@ def asciiFloatField (neg : Bool) (mant : Nat) (e2 : Int) : Bytes :=
     let eds := natDigits kk.natAbs
     let eds := if eds.length < 2 then 48 :: eds else eds
     32 :: sign :: (ds.take 1 ++ [46] ++ ds.drop 1) ++ [69, esign] ++ eds
+
+/-- decode an IEEE double bit pattern: (negative, mantissa, binary exponent); none for inf/nan -/
+def doubleParts (n : Nat) : Option (Bool × Nat × Int) :=
+  let neg : Bool := decide (n / 2 ^ 63 % 2 = 1)
+  let e : Nat := n / 2 ^ 52 % 2048
+  let fr : Nat := n % 2 ^ 52
+  if e = 2047 then none
+  else if e = 0 then some (neg, fr, -1074)
+  else some (neg, fr + 2 ^ 52, (e : Int) - 1075)
+
+/-- the text `" {:+.16E}".format(x)` of the double with bit pattern `n` ([] for inf/nan) -/
+def asciiRealField (n : Nat) : Bytes :=
+  match doubleParts n with
+  | some (neg, m, e) => asciiFloatField neg m e
+  | none => []
+
+/-- AsciiRecordWriter.rwFloat/rwDouble and AsciiRecordReader.rwFloat (`float(stream.read(24))`); the value is the
+64-bit pattern of the Python float; `parse` stands for Python's `float(text)` (a parameter of the model);
+`declared` = 4 for rwFloat, 8 for rwDouble -/
+def asciiReal (parse : Bytes → Option Nat) (declared : Nat) : Codec Nat where
+  enc n := asciiRealField n
+  dec bs := match parse (bs.take 24) with
+    | none => none
+    | some v => some (v, bs.drop 24)
+  size _ := declared
+  ok n := (doubleParts n).isSome ∧ (asciiRealField n).length = 24
 
 end ArmiVerif.Cccc
